@@ -28,13 +28,13 @@ ASSUMPTIONS = [
     "a user type's declared failures are ValueError and TypeError; anything else it raises is undeclared",
     "inputs that merely take long (alias bombs) are not generated: termination is judged with a 10 s CPU budget per run",
 ]
-PROBES = ["url-or-fsspec-read-mode", "stdout-absent", "rejected-AE", "rejected-exit2", "exit0-printed", "fault-fired", "injected-propagated", "stdin-closed", "cfg-path-state-fault", "cfg-content-fault", "cyclic-alias", "subclass-bad-import", "env-list-broken-json", "nested-subconfig-fault"]
+PROBES = ["deep-nesting", "url-or-fsspec-read-mode", "stdout-absent", "rejected-AE", "rejected-exit2", "exit0-printed", "fault-fired", "injected-propagated", "stdin-closed", "cfg-path-state-fault", "cfg-content-fault", "cyclic-alias", "subclass-bad-import", "env-list-broken-json", "nested-subconfig-fault"]
 ANCHOR_FILES = ("_core", "_actions", "_typehints", "_util", "_loaders_dumpers")
 NO_SHRINK = ("parser/opts", "parser/opts/*", "world/dirs", "world/cwd")
 SHRINK_DICTS = ("world/files", "world/env", "world/symlinks", "ops/*/obj", "ops/*/env")
 
 CYCLIC = ["&a [*a]", "&x {k: *x}", "&a [1, [2, *a]]"]
-BADV = ["!!int abc", "!!timestamp abc", "!!int '_'", "!!float x", "!!bool maybe", "!!null x", "!!str [1]", "!!seq {a: 1}", "!!map [1]", "!!binary =", "1.e", "-.e1", "1e-", "[1", "{", '{"a":', "*nope", "!!python/object:os.system x", "\x00", "a\x00b", "", " ", "null", "~", "-", "1e999", "{1: 2}", "? [1,2] : 3", "\t", "\u00e9", "0x1F", "yes", "--", "-1", "=", "a=b=c", "{{}}", "[[[[[[[[[[]]]]]]]]]]", "!!binary abc", "--- a\n--- b", "key: [unclosed", "- 1\n- 2", "{a: 1, a: 2}", "!!set {1, 2}", "!!python/tuple [1]", ".inf", "1:30", "2001-01-01", "<<: {a: 1}"] + CYCLIC
+BADV = ["!!int abc", "!!timestamp abc", "!!int '_'", "!!float x", "!!bool maybe", "!!null x", "!!str [1]", "!!seq {a: 1}", "!!map [1]", "!!binary =", "1.e", "-.e1", "1e-", "[1", "{", '{"a":', "*nope", "!!python/object:os.system x", "\x00", "a\x00b", "", " ", "null", "~", "-", "1e999", "{1: 2}", "? [1,2] : 3", "\t", "\u00e9", "0x1F", "yes", "--", "-1", "=", "a=b=c", "{{}}", "[[[[[[[[[[]]]]]]]]]]", "!!binary abc", "--- a\n--- b", "key: [unclosed", "- 1\n- 2", "{a: 1, a: 2}", "!!set {1, 2}", "!!python/tuple [1]", ".inf", "1:30", "2001-01-01", "<<: {a: 1}", "\u00b2", "\u2460", "-\u00b2", "9" * 4400, "-" + "9" * 4400, "[" * 1500 + "]" * 1500, "[" * 480 + "]" * 480, "${nothere}", "${oc.env:NOT_SET}", "${", "${..}", "${oc.decode:1}"] + CYCLIC
 CLASSP = ["Sub1", "Base", "dsim.simtypes.Sub2", "dsim.simtypes.Sub1", "Sub3", "dsim.simtypes.Sub3"]
 BADCLASSP = ["dsim.badmod.Thing", "dsim.badsyntax.broken", "calendar.NoSuch", "os.path", "dsim.simtypes.Unrelated", "dsim.simtypes.AbstractBase", "no.such.module.X", "Sub1.", ".Sub1", "1bad.path", "dsim.simtypes", "dsim.simtypes.double", "dsim.simtypes.D", "json", "builtins.int", "Sub3", "calendar.Calendar", ""]
 BADSPEC = [
@@ -100,9 +100,33 @@ F = {
     "ch1": {"decl": {"choices": ["x", "y"], "default": "x"}, "good": ["x", "y"], "bad": ["z", 3, ["x"]]},
     "pi": {"decl": {"type": "pos_int", "default": 1}, "good": [3, "4"], "bad": ["x", -1, [1]]},
     "n": {"decl": {"type": "float", "nargs": "+", "default": [1.0]}, "good": [[1, 2]], "bad": [["x"]], "nargs": True},
+    "ate": {"decl": {"type": "ate_int", "default": 1}, "good": [3, "4"], "bad": ["x", -1, [1], None, 1.5]},
+    "jn": {"decl": {"k": "jsonnet"}, "good": [{"layers": 1}, '{"a": 1}', "{a: 1 + 1}"], "bad": ["{bad", 3, "[1", "local x = ; x", "good.yaml", "missing.yaml", [1]], "path": False},
+    "js": {"decl": {"k": "jsonschema", "schema": {"type": "object", "properties": {"k": {"type": "integer"}}, "additionalProperties": False}}, "good": [{"k": 1}, '{"k": 2}'], "bad": [{"k": "x"}, {"zz": 1}, "{bad", 3, [1], "good.yaml", "missing.yaml"]},
+    # actions that are not type hints, argparse's own nargs / const / SUPPRESS, groups, signatures (round 9)
+    "yn": {"decl": {"action": "yesno", "default": False}, "good": [True, False], "bad": ["maybe", 3, [1]], "names": ["--no_yn"], "flag": True},
+    "wx": {"decl": {"name": "with-wx", "action": "yesno_with", "nargs": "?"}, "good": [True, False], "bad": ["maybe", 3], "names": ["--with-wx", "--without-wx", "--with-wx=false"], "flag": True},
+    "stt": {"decl": {"action": "store_true"}, "good": [True], "bad": ["x", 3], "flag": True},
+    "cnt": {"decl": {"action": "count", "default": 0, "short": ["-c"]}, "good": [2], "bad": ["x", [1]], "names": ["-c", "-ccc", "-cx", "-c=2"], "flag": True},
+    "app": {"decl": {"action": "append"}, "good": [["1"]], "bad": [3, {"a": 1}]},
+    "boa": {"decl": {"action": "boa"}, "good": [True, False], "bad": ["x", 3], "names": ["--no-boa", "--no-boa=1"], "flag": True},
+    "scn": {"decl": {"action": "store_const", "const": 5}, "good": [5], "bad": ["x"], "flag": True},
+    "nq": {"decl": {"type": "int", "nargs": "?", "const": 7, "default": 1}, "good": [3], "bad": ["x", [1]], "flag": True},
+    "nst": {"decl": {"type": "int", "nargs": "*"}, "good": [[1, 2], []], "bad": [["x"], 3], "nargs": True},
+    "sup": {"decl": {"type": "int", "default": "__suppress__"}, "good": [1], "bad": ["x", [1]]},
+    "g": {"decl": {"k": "group", "args": [{"name": "g.a", "type": "int", "default": 1}, {"name": "g.b", "type": "optstr", "default": None}, {"name": "g.l", "type": "list_int", "default": []}]}, "good": [{"a": 2}, {"b": "t"}, {"l": [1]}], "bad": [3, {"a": "x"}, {"zz": 1}, [1], {"l+": "x"}], "sub": ["a", "b", "zz", "l", "l+"]},
+    "mx": {"decl": {"k": "mutex", "args": [{"name": "mx1", "type": "int"}, {"name": "mx2", "type": "int"}]}, "good": [1], "bad": ["x"], "names": ["--mx1", "--mx2", "--mx1=1", "--mx2=2"]},
+    "fn": {"decl": {"k": "function", "fn": "sfunc"}, "good": [{"a": 2}, {"c": 1.5}], "bad": [{"a": "x"}, 3, {"zz": 1}, {"kw": {"q": 1}}, [1]], "sub": ["a", "b", "c", "kw", "zz", "kw.q"]},
+    "me": {"decl": {"k": "method", "cls": "KW", "method": "meth"}, "good": [{"z": [2]}, {"y": "t"}], "bad": [{"z": "x"}, {"z": ["x"]}, 3, {"self": 1}], "sub": ["z", "y", "z+", "self"]},
+    "kw": {"decl": {"k": "class", "cls": "KW"}, "good": [{"a": 2}], "bad": [{"a": "x"}, {"kwargs": {"q": 1}}, {"b": 1}, 3, {"class_path": "dsim.simtypes.KW"}], "sub": ["a", "kwargs", "b", "kwargs.q"]},
+    "out": {"decl": {"type": "opt_dout", "default": None}, "good": [{"inner": {"p": 3}}, {"items": [{"p": 1}], "m": {"k": {"p": 2}}}, {"opt": {"q": ["a"]}}, {"nums": [1]}], "bad": [{"inner": 3}, {"items": [{"p": "x"}]}, {"m": {"k": 3}}, {"zz": 1}, 3, [1], {"items": [{"q": "a"}]}, {"opt": {"zz": 1}}, {"items+": [{"p": 1}]}, {"nums+": 2}, {"items+": {"p": "x"}}, {"m": {"k": {"p": "x"}}}, {"inner": {"class_path": "dsim.simtypes.DIn"}}], "sub": ["inner", "inner.p", "opt", "opt.q", "opt.q+", "items", "items+", "m", "m.k", "m.k.p", "nums", "nums+", "zz", "inner.q+"], "append": True},
+    "dc": {"decl": {"k": "class", "cls": "DOut"}, "good": [{"inner": {"p": 3}}, {"items": [{"p": 1}]}, {"m": {"k": {"p": 2}}}], "bad": [{"inner": 3}, {"items": [{"p": "x"}]}, {"m": {"k": 3}}, {"zz": 1}, 3, {"items+": [{"p": 1}]}, {"nums+": [2]}, {"items+": 3}], "sub": ["inner", "inner.p", "opt", "opt.q", "items", "items+", "m", "m.k", "m.k.p", "nums", "nums+", "zz"]},
 }
+SUBVALS = [1, "x", [1], [{"p": 1}], {"p": 1}, {"k": {"p": 1}}, None, [1.5], {"a": 1}, [{"p": "x"}], "Sub1", {"class_path": "Base"}, [["a"]], ["a"]]
 PATH_STATES = ["good.yaml", "missing.yaml", "dir.yaml", "fifo.pipe", "fifogood.pipe", "dangling.yaml", "thru/x.yaml", "noperm.yaml", "$W/run/good.yaml", "~/h.yaml", "../run/good.yaml", "-", "nodir/x.yaml", "a\x00b.yaml", "", " ", ".", "good.yaml/", "--"]
-CONTENT_FAULTS = ["truncated", "flip", "nonutf8", "empty", "binary", "nul", "cyclic", "cyclic-any", "list-doc", "scalar-doc", "dupkeys", "tabs", "bom", "unknown-key", "bad-value", "deep", "nonstr-keys", "merge-key", "multi-doc"]
+DEEP_RUN = "[" * 1000  # deeper than the interpreter's recursion limit allows
+MID_RUN = "[" * 300  # deep, but well within it: has to load
+CONTENT_FAULTS = ["deep-limit", "interp", "digits", "truncated", "flip", "nonutf8", "empty", "binary", "nul", "cyclic", "cyclic-any", "list-doc", "scalar-doc", "dupkeys", "tabs", "bom", "unknown-key", "bad-value", "deep", "nonstr-keys", "merge-key", "multi-doc"]
 METHODS = ["args", "args", "args", "object", "string", "env", "path"]
 
 
@@ -113,8 +137,8 @@ def _t(v):
 def good_doc(rng, feats, sub=None):
     d = {}
     for f in feats:
-        if f in F and rng.random() < 0.5 and F[f]["good"]:
-            d[f] = copy.deepcopy(rng.choice(F[f]["good"]))
+        if f in F and rng.random() < 0.5 and F[f]["good"] and "k" not in F[f]["decl"] or f in ("g", "fn", "me", "kw", "dc") and rng.random() < 0.5:
+            d[f + "+" if F[f].get("append") and rng.random() < 0.12 else f] = copy.deepcopy(rng.choice(F[f]["good"]))
     if "inner" in feats and rng.random() < 0.5:
         d["inner"] = rng.choice([{"q": 3}, "inner.yaml", "innerbad.yaml", "missing.yaml"])
     return d
@@ -162,6 +186,16 @@ def make_content(rng, kind, feats):
             f = rng.choice(fs)
             doc[f] = copy.deepcopy(rng.choice(F[f]["bad"]))
         return {"text": json.dumps(doc)}
+    if kind == "deep-limit":
+        k = [f for f in feats if F.get(f, {}).get("anyval")] or ["any"]
+        c = rng.random()
+        n = rng.choice([1500, 1500, 480])
+        return {"text": ("%s: " % rng.choice(k) if c < 0.6 else "" if c < 0.8 else '{"%s": ' % rng.choice(k)) + "[" * n + "]" * n + ("}" if c >= 0.8 else "") + "\n"}
+    if kind == "interp":
+        fs = [f for f in feats if f in F and "k" not in F[f]["decl"]] or ["a"]
+        return {"text": rng.choice(["%s: ${nothere}\n", "%s: ${oc.env:NOT_SET}\n", "%s: ${\n", "%s: ${..}\n", "zz: 1\n%s: ${zz}\n", "%s: ${%s}\n", "%s: ${oc.decode:1}\n"]).replace("%s", rng.choice(fs))}
+    if kind == "digits":
+        return {"text": rng.choice(["\u00b2", "\u2460\n", "-\u00b2", "9" * 4400, "-" + "9" * 4400 + "\n", "\u0663"])}
     if kind == "deep":
         return {"text": "any: " + "[" * 60 + "]" * 60 + "\n"}
     if kind == "nonstr-keys":
@@ -178,6 +212,8 @@ def opt_name(rng, feats, all_feats):
     c = rng.random()
     f = rng.choice(feats) if feats else "a"
     info = F.get(f, {})
+    if c < 0.3 and info.get("names"):
+        return rng.choice(info["names"]), f
     if c < 0.5:
         return "--" + f, f
     if c < 0.68 and info.get("sub"):
@@ -229,7 +265,9 @@ def gen_argv(rng, feats, all_feats, spec_feats):
             name, f = opt_name(rng, feats, all_feats)
             v = value_for(rng, f)
             form = rng.random()
-            if F.get(f, {}).get("nargs") and form < 0.5:
+            if "=" in name or (F.get(f, {}).get("flag") and form < 0.6):
+                argv.append(name)
+            elif F.get(f, {}).get("nargs") and form < 0.5:
                 argv += [name] + [value_for(rng, f) for _ in range(rng.randint(0, 3))]
             elif form < 0.5:
                 argv.append(name + "=" + v)
@@ -253,7 +291,19 @@ def gen_obj(rng, feats, spec_feats):
         f = rng.choice(feats) if feats else "a"
         info = F.get(f, {"good": [1], "bad": ["x"]})
         if c < 0.35 and info["good"]:
-            o[f] = copy.deepcopy(rng.choice(info["good"]))
+            o[f + "+" if info.get("append") and rng.random() < 0.2 else f] = copy.deepcopy(rng.choice(info["good"]))
+        elif c < 0.55 and info["bad"]:
+            o[f + "+" if info.get("append") and rng.random() < 0.2 else f] = copy.deepcopy(rng.choice(info["bad"]))
+        elif c < 0.65 and info.get("sub"):
+            # a sub-key (possibly an append 'key+') spelled dotted or nested
+            sk = rng.choice(info["sub"])
+            v = copy.deepcopy(rng.choice(SUBVALS))
+            if rng.random() < 0.5:
+                o[f + "." + sk] = v
+            else:
+                for part in reversed(sk.split(".")):
+                    v = {part: v}
+                o[f] = v
         elif c < 0.65 and info["bad"]:
             o[f] = copy.deepcopy(rng.choice(info["bad"]))
         elif c < 0.75:
@@ -314,8 +364,11 @@ def generate(rng, tier):
     opts = {"exit_on_error": eoe, "default_env": rng.random() < 0.2}
     if rng.random() < 0.2:
         opts["default_config_files"] = [rng.choice(["$W/run/good.yaml", "$W/run/fault.yaml", "$W/run/*.yaml", "$W/run/dir.yaml", "~/h.yaml"])]
-    if rng.random() < 0.1:
+    c = rng.random()
+    if c < 0.1:
         opts["parser_mode"] = "json"
+    elif c < 0.16:
+        opts["parser_mode"] = "omegaconf"
     spec = {"opts": opts, "args": args, "feats": feats, "spec_feats": sorted(spec_feats)}
     fk1, fk2 = rng.choice(CONTENT_FAULTS), rng.choice(CONTENT_FAULTS)
     files = {
@@ -441,7 +494,7 @@ def _is_json(v):
     try:
         json.loads(v)
         return True
-    except ValueError:
+    except (ValueError, RecursionError):
         return False
 
 
@@ -454,6 +507,21 @@ def _has_cyclic(op, sc):
             f = sc["world"]["files"].get("run/" + name)
             t = f.get("text", "") if isinstance(f, dict) else (f or "")
             if "&" in t and "*" in t:
+                return True
+    return False
+
+
+def _has_deep(op, sc, run=None):
+    """the operation's input (or a file it can reach) nests a few hundred levels deep"""
+    run = run or DEEP_RUN
+    txt = json.dumps(op)
+    if run in txt:
+        return True
+    for name in ("fault.yaml", "fault2.yaml"):
+        if name in txt or "*.yaml" in json.dumps(sc["parser"]["opts"]) or name in json.dumps(sc["parser"]["opts"]):
+            f = sc["world"]["files"].get("run/" + name)
+            t = f.get("text", "") if isinstance(f, dict) else (f or "")
+            if run in t:
                 return True
     return False
 
@@ -529,6 +597,10 @@ def execute(sc, ctx):
         cyc = _has_cyclic(op, sc)
         if cyc:
             sim.probe("cyclic-alias")
+        # (omegaconf's own tree walk gives up far below the interpreter's limit)
+        deep = _has_deep(op, sc, MID_RUN if sc["parser"]["opts"].get("parser_mode") == "omegaconf" else DEEP_RUN)
+        if deep:
+            sim.probe("deep-nesting")
         ctx.record(kind, o.brief() + ("!" if fired else ""))
         ok = False
         why = ""
@@ -583,7 +655,7 @@ def execute(sc, ctx):
             elif exc == "RecursionError":
                 # named by the members of the loop: the frames that occur many times in the traceback (where the
                 # stack happened to overflow - a leaf frame - occurs once and does not enter the name)
-                frame = "cyclic-alias" if cyc else "loop:" + "+".join(sorted(f for f in set(frames) if frames.count(f) >= 5 and not f.startswith("_deprecated:")))[:200]
+                frame = "deep-nesting" if deep else "cyclic-alias" if cyc else "loop:" + "+".join(sorted(f for f in set(frames) if frames.count(f) >= 5 and not f.startswith("_deprecated:")))[:200]
             else:
                 frame = frames[-1] if frames else "?"
             ctx.violation(
